@@ -336,5 +336,5 @@ func c20Check(c *Ctx, cs c20Case) *Failure {
 
 func TestC20(t *testing.T) {
 	c := NewCtx(t, "C20")
-	RunRapid(c, t, Sub[c20Case]{Kind: "render", Quick: 6000, Thorough: 200_000, Gen: genC20, Check: c20Check})
+	RunRapid(c, t, Sub[c20Case]{Kind: "render", Quick: 20000, Thorough: 200_000, Gen: genC20, Check: c20Check})
 }
